@@ -126,6 +126,11 @@ Theorem C10_client_decodes_writer : forall cd d,
 Proof. exact dec_multistatus_wdoc. Qed.
 Print Assumptions C10_client_decodes_writer.
 
+Theorem C10_client_reads_content : forall cd fl c reqpath d,
+  wdoc_ok d = true -> run_call cd fl c reqpath (rfc_write d) = content_call cd fl c reqpath d.
+Proof. exact client_reads_content. Qed.
+Print Assumptions C10_client_reads_content.
+
 (** [same_content_b cd known d1 d2]: same resources in the same order (hrefs denoting the
     same paths), same response status codes, same sync token, and for every property name
     the call reads ([known_for]) the same sequence of (value, status code) answers. *)
